@@ -384,4 +384,87 @@ fn static_battery(cfg: &Cfg, rep: &mut Report) {
       }
     }
   }
+  // the callback operators and the two operators whose item type the AST cannot carry, over a hot
+  // subject: on_complete / on_error (the error ends there: downstream sees no terminal),
+  // timestamp (values untouched, instants between `before` and `after`, never decreasing),
+  // collect_into (the given collection extended by the items, on completion only)
+  for items in &inputs {
+    for term in 0..3u8 {
+      k += 1;
+      let id = format!("typed:cb:{}:{}", k, term);
+      if !cfg.mine(k) || !cfg.wants(&id) {
+        continue;
+      }
+      rep.evaluations += 1;
+      rep.count("static_battery_cases", 1);
+      rep.count("callback_operator_cases", 1);
+      for n in ["on_complete", "on_error", "timestamp", "collect_into"] {
+        rep.set("operators_covered", n);
+      }
+      let log: Rc<RefCell<Vec<String>>> = Default::default();
+      let (l1, l2, l3, l4) = (log.clone(), log.clone(), log.clone(), log.clone());
+      let mut subj = Subject::<'static, i64, i32>::default();
+      subj
+        .clone()
+        .on_complete(move || l1.borrow_mut().push("on_complete".into()))
+        .on_error(move |e| l2.borrow_mut().push(format!("on_error {}", e)))
+        .on_complete(move || l3.borrow_mut().push("downstream complete".into()))
+        .subscribe(move |v| l4.borrow_mut().push(format!("next {}", v)));
+      let stamps: Rc<RefCell<Vec<(i64, Instant)>>> = Default::default();
+      let st2 = stamps.clone();
+      subj.clone().timestamp().on_error(|_| {}).subscribe(move |(v, t)| st2.borrow_mut().push((v, t)));
+      let coll: Rc<RefCell<Vec<String>>> = Default::default();
+      let (c1, c2, c3) = (coll.clone(), coll.clone(), coll.clone());
+      subj
+        .clone()
+        .collect_into::<Vec<i64>>(vec![-1, -2])
+        .on_error(move |e| c1.borrow_mut().push(format!("error {}", e)))
+        .on_complete(move || c2.borrow_mut().push("complete".into()))
+        .subscribe(move |l| c3.borrow_mut().push(format!("{:?}", l)));
+      let before = Instant::now();
+      for v in items {
+        subj.next(*v);
+      }
+      match term {
+        1 => subj.clone().complete(),
+        2 => subj.clone().error(7),
+        _ => {}
+      }
+      subj.next(99); // after a terminal: nothing more
+      let after = Instant::now();
+      let mut want: Vec<String> = items.iter().map(|v| format!("next {}", v)).collect();
+      match term {
+        1 => want.extend(["on_complete".to_string(), "downstream complete".to_string()]),
+        2 => want.push("on_error 7".into()),
+        _ => want.push("next 99".into()),
+      }
+      let got = log.borrow().clone();
+      rep.events += got.len() as u64;
+      if got != want {
+        rep.violation("sequence_mismatch", "typed:on_complete+on_error", &id, json!({"items": items, "terminal": term, "observed": got, "expected": want}));
+      }
+      let st = stamps.borrow().clone();
+      let mut wantv: Vec<i64> = items.clone();
+      if term == 0 {
+        wantv.push(99);
+      }
+      let ok_t = st.windows(2).all(|w| w[0].1 <= w[1].1) && st.iter().all(|(_, t)| *t >= before && *t <= after);
+      if st.iter().map(|x| x.0).collect::<Vec<_>>() != wantv || !ok_t {
+        rep.violation("sequence_mismatch", "typed:timestamp", &id, json!({"items": items, "terminal": term, "observed_values": st.iter().map(|x| x.0).collect::<Vec<_>>(), "instants_ordered_and_within_the_run": ok_t}));
+      }
+      let mut all = vec![-1i64, -2];
+      all.extend(items.iter());
+      let wantc: Vec<String> = match term {
+        1 => vec![format!("{:?}", all), "complete".into()],
+        2 => vec!["error 7".into()],
+        _ => vec![],
+      };
+      let gotc = coll.borrow().clone();
+      if gotc != wantc {
+        rep.violation("sequence_mismatch", "typed:collect_into", &id, json!({"items": items, "terminal": term, "observed": gotc, "expected": wantc}));
+      } else {
+        rep.nontrivial.insert(hash64(&(items, term, "typed:cb")));
+      }
+    }
+  }
 }
